@@ -1,3 +1,4 @@
+#![allow(dead_code)]
 //! fdmon — runtime monitors for the flipdot properties C01..C20.
 //!
 //! usage: fdmon <ID> [--tier quick|thorough] [--seed N] [--replay FILE] [--verif-dir DIR] [--miri] [--no-evidence]
@@ -7,21 +8,21 @@
 // mod doubles;
 mod refs;
 // mod refctl;
-// mod refsign;
+mod refsign;
 mod util;
 
 mod c01;
-// mod c02;
-// mod c03;
-// mod c04;
-// mod c05;
-// mod c06;
-// mod c07;
+mod c02;
+mod c03;
+mod c04;
+mod c05;
+mod c06;
+mod c07;
 // mod c08;
 // mod c09;
 // mod c10;
-// mod c12;
-// mod c13;
+mod c12;
+mod c13;
 // mod c14;
 // mod c15;
 // mod c16;
@@ -30,7 +31,7 @@ mod c01;
 // mod c19;
 // mod c20;
 // mod ctl;
-// mod vsx;
+mod vsx;
 
 use std::time::Instant;
 
@@ -113,18 +114,18 @@ fn main() {
 
     let outcome: Outcome = match prop.as_str() {
         "C01" => c01::run(&ctx),
-        // "C02" => c02::run(&ctx),
-        // "C03" => c03::run(&ctx),
-        // "C04" => c04::run(&ctx),
-        // "C05" => c05::run(&ctx),
-        // "C06" => c06::run(&ctx),
-        // "C07" => c07::run(&ctx),
+        "C02" => c02::run(&ctx),
+        "C03" => c03::run(&ctx),
+        "C04" => c04::run(&ctx),
+        "C05" => c05::run(&ctx),
+        "C06" => c06::run(&ctx),
+        "C07" => c07::run(&ctx),
         // "C08" => c08::run(&ctx),
         // "C09" => c09::run(&ctx),
         // "C10" => c10::run(&ctx, false),
         // "C11" => c10::run(&ctx, true),
-        // "C12" => c12::run(&ctx),
-        // "C13" => c13::run(&ctx),
+        "C12" => c12::run(&ctx),
+        "C13" => c13::run(&ctx),
         // "C14" => c14::run(&ctx),
         // "C15" => c15::run(&ctx),
         // "C16" => c16::run(&ctx),
@@ -182,7 +183,8 @@ fn finish(ctx: &Ctx, outcome: Outcome, wall: f64, write_evidence: bool) -> i32 {
     }
 
     // replay files
-    let replay_dir = format!("{}/replays", ctx.verif_dir);
+    let out_dir = std::env::var("VERIF_OUT").unwrap_or_else(|_| ctx.verif_dir.clone());
+    let replay_dir = format!("{}/replays", out_dir);
     let mut lines = vec![];
     for (n, v) in new_violations.iter().enumerate().take(20) {
         let _ = std::fs::create_dir_all(&replay_dir);
@@ -266,7 +268,7 @@ fn finish(ctx: &Ctx, outcome: Outcome, wall: f64, write_evidence: bool) -> i32 {
             ("known_findings_matched".into(), J::Int(known_hits.len() as i128)),
             ("verdict".into(), J::s(verdict)),
         ]);
-        let dir = format!("{}/evidence", ctx.verif_dir);
+        let dir = format!("{}/evidence", out_dir);
         let _ = std::fs::create_dir_all(&dir);
         let path = format!("{}/{}.json", dir, ctx.prop);
         if let Err(e) = std::fs::write(&path, ev.render() + "\n") {
@@ -339,11 +341,11 @@ fn run_replay(ctx: &Ctx, path: &str) -> i32 {
     let mut rep = util::Report::new();
     let supported = match ctx.prop.as_str() {
         "C01" => c01::replay(&detail, &mut rep),
-        // "C02" => c02::replay(&detail, &mut rep),
-        // "C03" => c03::replay(&detail, &mut rep),
-        // "C04" => c04::replay(&detail, &mut rep),
-        // "C05" => c05::replay(&detail, &mut rep),
-        // "C12" | "C13" => vsx::replay(&ctx.prop, &detail, &mut rep),
+        "C02" => c02::replay(&detail, &mut rep),
+        "C03" => c03::replay(&detail, &mut rep),
+        "C04" => c04::replay(&detail, &mut rep),
+        "C05" => c05::replay(&detail, &mut rep),
+        "C12" | "C13" => vsx::replay(&ctx.prop, &detail, &mut rep),
         // "C14" => c14::replay(&detail, &mut rep),
         _ => false,
     };
